@@ -74,7 +74,10 @@ Clauses(b, s0, e) ==
     \cup (IF ~e.closed THEN {"C05_Closed"} ELSE {})
     \cup (IF ~e.meaning THEN {"C05_MeaningPreserved"} ELSE {})
     \cup (IF HasExt(b) /\ ~AllTrue(e.numeraire, 1) THEN {"C07_NumeraireValueZero"} ELSE {})
-    \cup (IF HasExt(b) /\ ~b.gold /\ ~AllTrue(e.numflat, 1) THEN {"C07_PairedLeavesNumeraireFlat"} ELSE {})
+    \* (a sector that keeps its books in the NUMERAIRE has its own-currency legs in NET_NUMERAIRE, as a CAD sector has
+    \* in NET_CAD: the 'numeraire position stays at zero' sentence is about models without such a sector)
+    \cup (IF HasExt(b) /\ ~b.gold /\ ~(\E s \in 1..NSec(b) : Sec(b, s).cc = "EXT") /\ ~AllTrue(e.numflat, 1)
+          THEN {"C07_PairedLeavesNumeraireFlat"} ELSE {})
     \cup (IF \E i \in 1..Len(e.credits) : ~e.credits[i].ok THEN {"C07_Credit"} ELSE {})
     \cup (IF LedgerDrift(b, s0, e) THEN {"drift_ledger"} ELSE {})
     \cup (IF VarsDrift(b, s0, e) THEN {"drift_vartable"} ELSE {})
